@@ -693,6 +693,66 @@ where
     }
 }
 
+/// Verification hook (compiled only under `--cfg kani` / `--cfg grmtools_verif`).
+#[cfg(any(kani, grmtools_verif))]
+impl<StorageT: 'static + PrimInt + Unsigned> YaccGrammar<StorageT>
+where
+    usize: AsPrimitive<StorageT>,
+{
+    /// Build a grammar directly from indexed parts (no text parser). `prods` are all
+    /// productions, `prods_rules[i]` the rule of production `i`; rule 0 is the start rule whose
+    /// sole production is `start_prod`. The last token is EOF.
+    pub fn verif_from_parts(
+        rules_len: usize,
+        tokens_len: usize,
+        prods: Vec<Vec<Symbol<StorageT>>>,
+        prods_rules: Vec<RIdx<StorageT>>,
+        token_precs: Vec<Option<Precedence>>,
+        prod_precs: Vec<Option<Precedence>>,
+        start_prod: PIdx<StorageT>,
+    ) -> Self {
+        let mut rules_prods: Vec<Vec<PIdx<StorageT>>> = Vec::new();
+        for _ in 0..rules_len {
+            rules_prods.push(Vec::new());
+        }
+        for (i, r) in prods_rules.iter().enumerate() {
+            rules_prods[usize::from(*r)].push(PIdx(i.as_()));
+        }
+        let plen = prods.len();
+        YaccGrammar {
+            rules_len: RIdx(rules_len.as_()),
+            rule_names: (0..rules_len)
+                .map(|_| (String::new(), Span::new(0, 0)))
+                .collect(),
+            token_names: (0..tokens_len).map(|_| None).collect(),
+            token_precs: token_precs.into_boxed_slice(),
+            token_epp: (0..tokens_len).map(|_| None).collect(),
+            tokens_len: TIdx(tokens_len.as_()),
+            eof_token_idx: TIdx((tokens_len - 1).as_()),
+            prods_len: PIdx(plen.as_()),
+            start_prod,
+            prods: prods.into_iter().map(|x| x.into_boxed_slice()).collect(),
+            rules_prods: rules_prods
+                .into_iter()
+                .map(|x| x.into_boxed_slice())
+                .collect(),
+            prods_rules: prods_rules.into_boxed_slice(),
+            prod_precs: prod_precs.into_boxed_slice(),
+            prod_spans: (0..plen).map(|_| Span::new(0, 0)).collect(),
+            implicit_rule: None,
+            actions: (0..plen).map(|_| None).collect(),
+            action_spans: (0..plen).map(|_| None).collect(),
+            parse_param: None,
+            parse_generics: None,
+            programs: None,
+            actiontypes: (0..rules_len).map(|_| None).collect(),
+            avoid_insert: None,
+            expect: None,
+            expectrr: None,
+        }
+    }
+}
+
 /// A `SentenceGenerator` can generate minimal sentences for any given rule. e.g. for the
 /// grammar:
 ///
